@@ -852,6 +852,7 @@ func (runInfo *runInfoStruct) runDeferStmt(stmt *ast.DeferStmt) {
 		fn:        f,
 		args:      args,
 		callSlice: useCallSlice,
+		subExprs:  callExpr.SubExprs,
 	})
 	runInfo.rv = nilValue
 }
@@ -893,6 +894,18 @@ func (runInfo *runInfoStruct) callDeferredFunc(deferred capturedFunc) {
 		rvs = deferred.fn.CallSlice(deferred.args)
 	} else {
 		rvs = deferred.fn.Call(deferred.args)
+	}
+	if !checkIfRunVMFunction(deferred.fn.Type()) {
+		// like callExpr: set pointers back to VM variables
+		for i, expr := range deferred.subExprs {
+			if addrExpr, ok := unparen(expr).(*ast.AddrExpr); ok && i < len(deferred.args) {
+				if identExpr, ok := unparen(addrExpr.Expr).(*ast.IdentExpr); ok {
+					runInfo.rv = deferred.args[i].Elem()
+					runInfo.expr = identExpr
+					runInfo.invokeLetExpr()
+				}
+			}
+		}
 	}
 	_, runInfo.err = processCallReturnValues(rvs, checkIfRunVMFunction(deferred.fn.Type()), true)
 }
